@@ -32,6 +32,12 @@ CHECKS = {
  "C13": ("exploration", "exhaustive value grids round-tripped through the implementation against big.Int / encoding/json references",
          "decimal coefficient x exponent grid, instants on a calendar grid plus every offset transition 1800-2040 of 6-7 zones x all 12 date/time format environments (ISO and environment forms), all dates and times on grids, all JSON documents of depth<=2 width<=2 over 20 leaf and 8 key kinds (depth 3 over a reduced alphabet), and '=' pairs; every rendering must convert back to the same value at the rendered precision",
          "host IANA timezone database shared by code and oracle; exponents within +-400; depth-3 JSON over a reduced alphabet"),
+ "C14": ("exploration", "bounded exhaustive enumeration of query token sequences (viability-pruned by the real parser), constructed query trees x value strings, escaped template substitutions and real engine actions",
+         "every space-joined token sequence up to length 5/6 over a 23-25 token vocabulary under both redaction policies and two resolvers, all 311 constructed tree shapes of depth<=2 with every value string up to 2-5 symbols over an 11-15 symbol adversarial alphabet at every position (and pairs), 6 injection templates with the engine's ContactQueryEscaping, and the same through real start_session / send_broadcast actions; parse(format(q)) must be structurally identical, constructed queries must parse back to their normal form, substituted values must become exactly one literal",
+         "pruning relies on ANTLR reporting its first syntax error at the earliest offending token (cross-checked by brute force to length 3/4); bounded alphabets"),
+ "C15": ("exploration", "bounded exhaustive enumeration of conditions x contacts x environments and of all boolean trees, against reference relations",
+         "every condition the validator admits over all attributes, URN schemes and field types x 10 operator spellings x 36 literals x 22 contacts x 7 environments; number and date consistency relations on grids (dates at +-1 ns around both ends of the query day in 6-8 zones incl. DST days and days without midnight, 3 date formats); every AND/OR tree of depth<=2 over atoms realising every truth assignment, in 3 spellings, and constructed trees of depth<=3; no panic, compositionality, Simplify-invariance, absence/presence, trichotomy, calendar-day semantics by an independent reference",
+         "bounded alphabets of literals, contacts, zones and days"),
  "C16": ("fault_enumeration", "bounded exhaustive enumeration of valid sources x targets plus single-fault (thorough: pair) JSON mutation and every byte-prefix truncation of 81 seed definitions",
          "every valid source of the stated families (template positions x versions, all action/router/wait types, language/name cases, canonical graphs per version, legacy rule sets of every type) is migrated to every newer version (one go, stepwise, latest) and checked for loadability, UUID/graph preservation, idempotence, byte-identity of current definitions, template value preservation and read/marshal stability; every JSON path x 14 replacements and every truncation of 81 seeds must be rejected with an error or accepted, never panic",
          "validity at old versions taken from the repository's migration test data; single faults in quick tier"),
